@@ -511,6 +511,56 @@ class Interp:
             return None
         return [(v['name'], len(v['fields']), v['discr']) for v in a['variants']]
 
+    # Field roles of the anchored types as (name at the pinned commit, type).  The rules name fields by these role names;
+    # when a (private) field was renamed, the role is re-found by its type and, among fields of one type, by declaration
+    # order.  A role that cannot be re-found uniquely is an anchor failure (Inconclusive), never a guess.
+    PINNED_FIELDS = {
+        'editor::Editor': [('buffer', 'B'), ('cursor', 'usize'), ('valid', 'usize')],
+        'history::History': [('buffer', 'B'), ('cursor', 'core::option::Option<usize>'), ('used', 'usize')],
+        'writer::Writer': [('last_bytes', '[u8; 2]'), ('dirty', 'bool'), ('writer', '&mut W')],
+        'autocomplete::Autocompletion': [('autocompleted', 'core::option::Option<usize>'), ('buffer', '&mut [u8]'), ('partial', 'bool')],
+        'cli::Cli': [('editor', 'core::option::Option<editor::Editor<CommandBuffer>>'), ('history', 'history::History<HistoryBuffer>'),
+                     ('input_generator', 'core::option::Option<input::InputGenerator>'), ('prompt', '&str'), ('writer', 'W')],
+        'utf8::Utf8Accum': [('buffer', '[u8; 4]'), ('expected', 'u8'), ('partial', 'u8')],
+        'token::Tokens': [('empty', 'bool'), ('tokens', '&str')],
+        'token::TokensIter': [('tokens', '&str'), ('empty', 'bool')],
+        'arguments::ArgsIter': [('values_only', 'bool'), ('leftover', '&str'), ('tokens', 'token::TokensIter')],
+        'arguments::ArgList': [('tokens', 'token::Tokens')],
+        'command::RawCommand': [('name', '&str'), ('args', 'arguments::ArgList')],
+        'input::InputGenerator': [('flags', 'input::Flags'), ('last_byte', 'u8'), ('utf8', 'utf8::Utf8Accum')],
+    }
+
+    @staticmethod
+    def _ty_key(s_):
+        import re as _re
+        s_ = _re.sub(r"'\w+ ?", '', s_ or '')          # lifetimes
+        s_ = _re.sub(r"<'?_?>", '', s_)
+        s_ = _re.sub(r'<>', '', s_.replace("<, ", "<").replace("<,", "<"))
+        return s_.replace('embedded_cli::', '')
+
+    def resolve_field(self, npath, name, variant=0):
+        """index of the field playing role `name` in ADT `npath` (see PINNED_FIELDS)"""
+        a = self.adts.get(npath)
+        if a is None:
+            raise Inconclusive("unknown ADT " + npath)
+        fs = a['variants'][variant]['fields']
+        for i, f in enumerate(fs):
+            if f['name'] == name:
+                return i
+        pinned = self.PINNED_FIELDS.get(npath)
+        if not pinned or name not in dict(pinned):
+            return None
+        want = dict(pinned)[name]
+        norm = lambda t: self._ty_key(t).replace(' ', '')
+        same_roles = [n for n, t in pinned if norm(t) == norm(want)]
+        present = {f['name'] for f in fs}
+        cands = [i for i, f in enumerate(fs) if norm(f['ty'].get('s', '')).startswith(norm(want)) and
+                 (f['name'] not in dict(pinned) or f['name'] == name)]
+        missing = [n for n in same_roles if n not in present]
+        if len(cands) == len(missing) and name in missing:
+            return cands[missing.index(name)]
+        return None
+
     def make_adt(self, npath, variant=0, fields=None, **named):
         """Build a struct/enum value from ADT facts; unnamed fields are TOP."""
         a = self.adts.get(npath)
@@ -522,20 +572,20 @@ class Interp:
             for i, x in enumerate(fields):
                 vals[i] = x
         for k, x in named.items():
-            idx = [i for i, f in enumerate(v['fields']) if f['name'] == k]
-            if not idx:
-                raise Inconclusive("ADT %s has no field %s" % (npath, k))
-            vals[idx[0]] = x
+            i = self.resolve_field(npath, k, variant)
+            if i is None:
+                raise Inconclusive("ADT %s has no field %s (nor a field that can take its place by type)" % (npath, k))
+            vals[i] = x
         return ('adt', npath, variant, tuple(vals))
 
     def field_index(self, npath, name, variant=0):
         a = self.adts.get(npath)
         if a is None:
             raise Inconclusive("unknown ADT " + npath)
-        for i, f in enumerate(a['variants'][variant]['fields']):
-            if f['name'] == name:
-                return i
-        raise Inconclusive("ADT %s has no field %s" % (npath, name))
+        i = self.resolve_field(npath, name, variant)
+        if i is not None:
+            return i
+        raise Inconclusive("ADT %s has no field %s (nor a field that can take its place by type)" % (npath, name))
 
     def variant_index(self, npath, name):
         vs = self.adt_variants(npath)
